@@ -69,6 +69,13 @@ func (g *Gen) line(format string, a ...interface{}) error {
 	return nil
 }
 
+// Inspect emits the `inspect` operation (run.go).
+func (g *Gen) Inspect() error {
+	g.inMut = true
+	defer func() { g.inMut = false }()
+	return g.line("inspect")
+}
+
 func (g *Gen) pick(n int) int { return g.R.Intn(n) }
 func (g *Gen) chance(p float64) bool { return g.R.Float64() < p }
 
